@@ -90,6 +90,17 @@ func newSegment(path string, baseOffset, maxBytes int64, isNew bool, suffix stri
 	if isNew && exists(s.logPath()) {
 		return nil, ErrSegmentExists
 	}
+	// A suffixed (.cleaned/.truncated) segment is always built from scratch.
+	// Remove any leftovers from a clean or truncation that was interrupted by
+	// a crash, otherwise the rewritten messages would be appended after the
+	// stale ones and end up duplicated in the replaced segment.
+	if suffix != "" {
+		for _, stale := range []string{s.logPath(), s.indexPath()} {
+			if err := os.Remove(stale); err != nil && !os.IsNotExist(err) {
+				return nil, errors.Wrap(err, "remove stale file failed")
+			}
+		}
+	}
 	flags := os.O_RDWR | os.O_CREATE | os.O_APPEND
 	if isNew {
 		// Create the file exclusively so that, of two goroutines racing to
